@@ -683,6 +683,11 @@ def _handle_call(node: ast.Call, ctx: Context) -> sympy.Expr | None:
         - object.call
         - Class.call
     """
+    if node.keywords or any(isinstance(i, ast.Starred) for i in node.args):
+        # Only plain positional arguments are mapped onto the callee
+        msg = "Keyword and starred call arguments are not implemented"
+        raise NotImplementedError(msg)
+
     model_args: list[sympy.Expr] = []
     for i in node.args:
         if (expr := _handle_expr(i, ctx)) is None:
